@@ -180,6 +180,7 @@ impl Scenario for EciesNet {
                 break;
             }
             ctx.seq = seq;
+            ctx.crumb(jstr(ev, "op"));
             let op = jstr(ev, "op");
             let p = jusize(ev, "pkt");
             match op {
